@@ -24,6 +24,7 @@ Generated once by harness/mkprops.py from harness/props_table.py + PGProperties/
 import PGProofs.CacheThm
 import PGProofs.Glue
 import PGProofs.MomentsThm
+import PGProofs.MemoThm
 
 set_option linter.all false
 set_option pp.fieldNotation.generalized false
@@ -58,6 +59,30 @@ theorem stale_read_defect : type_of% @PG.Cache.stale_read_defect := @PG.Cache.st
 /-- given the right matrices a query is a pure function of its arguments -/
 theorem queries_are_pure : ∀ {K : Type} [inst : Field K] [inst_1 : LinearOrder K] [inst_2 : IsStrictOrderedRing K] {ι : Type} [inst_3 : Fintype ι] [inst_4 : DecidableEq ι] {k : ℕ} (L : ExpLaw K) (S : ℕ → Matrix ι ι K) (R : Fin k → ι → K) (α : ι → K) (eps : List EpochT) (ts : List ℚ), codeVectorised (fun fs ↦ accumVal L S R α (castF fs)) eps ts = List.map (fun t ↦ accumVal L S R α (castF (specFactors eps t))) ts := @PG.code_accumulate_pointwise
 
+/-- DISTRIBUTION-LEVEL MEMO: with functools.cache on moment / _accumulate / _get_P and the cached_property slots mean, var, cov, corr, the answers to EVERY history of queries are those of the memo-free evaluator -/
+theorem memo_refinement : ∀ {V : Type} (F : Memo.Fresh V) (qs : List Memo.Query), (Memo.runAll Memo.Variant.current F Memo.init qs).answers = List.map (Memo.spec F) qs := @PG.Memo.memo_refinement
+
+/-- the answer to a query does not depend on the history before it -/
+theorem memo_order_irrelevant : ∀ {V : Type} (F : Memo.Fresh V) (hist hist' : List Memo.Query) (q : Memo.Query), Memo.answerAfter Memo.Variant.current F hist q = Memo.answerAfter Memo.Variant.current F hist' q := @PG.Memo.memo_order_irrelevant
+
+/-- same answer as a fresh object -/
+theorem memo_fresh_equiv : ∀ {V : Type} (F : Memo.Fresh V) (hist : List Memo.Query) (q : Memo.Query), Memo.answerAfter Memo.Variant.current F hist q = Memo.answerAfter Memo.Variant.current F [] q := @PG.Memo.memo_fresh_equiv
+
+/-- the Coalescent.moment route (a new lower object per call) likewise -/
+theorem memo_forgetting : ∀ {V : Type} (F : Memo.Fresh V) (qs : List Memo.Query) (st : Memo.State V), Memo.Inv F st → (Memo.runAllForgetting Memo.Variant.current F st qs).answers = List.map (Memo.spec F) qs := @PG.Memo.memo_refinement_forgetting
+
+/-- the key comparison functools.cache performs (same class and equal hash, hash read as the structural key) identifies exactly equal rewards -/
+theorem memo_keys : ∀ (r r' : Reward), Memo.keyEq Memo.KeyScheme.current r r' = true ↔ r = r' := @PG.Memo.memo_keyEq_iff
+
+/-- kernel-checked: corr computed in place on the cached cov array makes a later cov read return correlations -/
+theorem memo_corr_in_place_defect : (Memo.runAll Memo.Variant.corrInPlace Memo.toy Memo.init [Memo.Query.cov, Memo.Query.corr, Memo.Query.cov]).answers = [1924, 13468, 13468] ∧ List.map (Memo.spec Memo.toy) [Memo.Query.cov, Memo.Query.corr, Memo.Query.cov] = [1924, 13468, 1924] ∧ (Memo.runAll Memo.Variant.current Memo.toy Memo.init [Memo.Query.cov, Memo.Query.corr, Memo.Query.cov]).answers = [1924, 13468, 1924] := @PG.Memo.corr_inPlace_poisons_cov
+
+/-- kernel-checked: a _get_P memo keyed without theta -/
+theorem memo_getP_theta_defect : (Memo.runAll Memo.Variant.getPNoTheta Memo.toy Memo.init [Memo.Query.getP 1, Memo.Query.getP 2]).answers = [6, 6] ∧ List.map (Memo.spec Memo.toy) [Memo.Query.getP 1, Memo.Query.getP 2] = [6, 7] ∧ (Memo.runAll Memo.Variant.current Memo.toy Memo.init [Memo.Query.getP 1, Memo.Query.getP 2]).answers = [6, 7] := @PG.Memo.getP_forgets_theta
+
+/-- kernel-checked: in-place += on an array returned from a memoised call -/
+theorem memo_in_place_sum_defect : (Memo.runAll Memo.Variant.inPlaceSum Memo.toy Memo.init [Memo.Query.accumulate { k := 2, endTimes := [1], rewards := [Memo.A, Memo.B], permute := true }, Memo.Query.accumulate { k := 2, endTimes := [1], rewards := [Memo.A, Memo.B], permute := false }]).answers = [5872, 11744] ∧ List.map (Memo.spec Memo.toy) [Memo.Query.accumulate { k := 2, endTimes := [1], rewards := [Memo.A, Memo.B], permute := true }, Memo.Query.accumulate { k := 2, endTimes := [1], rewards := [Memo.A, Memo.B], permute := false }] = [5872, 5952] ∧ (Memo.runAll Memo.Variant.current Memo.toy Memo.init [Memo.Query.accumulate { k := 2, endTimes := [1], rewards := [Memo.A, Memo.B], permute := true }, Memo.Query.accumulate { k := 2, endTimes := [1], rewards := [Memo.A, Memo.B], permute := false }]).answers = [5872, 5952] := @PG.Memo.inPlaceSum_poisons_memo
+
 end PG.C17
 
 #print axioms PG.C17.refinement
@@ -69,3 +94,11 @@ end PG.C17
 #print axioms PG.C17.repaired_consumer
 #print axioms PG.C17.stale_read_defect
 #print axioms PG.C17.queries_are_pure
+#print axioms PG.C17.memo_refinement
+#print axioms PG.C17.memo_order_irrelevant
+#print axioms PG.C17.memo_fresh_equiv
+#print axioms PG.C17.memo_forgetting
+#print axioms PG.C17.memo_keys
+#print axioms PG.C17.memo_corr_in_place_defect
+#print axioms PG.C17.memo_getP_theta_defect
+#print axioms PG.C17.memo_in_place_sum_defect
